@@ -18,8 +18,8 @@ import shutil
 from .common import LEAN, SRC, VERIF, add_failure, bump, new_outcome
 
 PROP = "C13"
-PROPS_FILES = ["CogentModel/Props/C13.lean"]
-LEAN_TARGETS = ["CogentModel.Props.C13"]
+PROPS_FILES = ["CogentModel/Props/C13.lean", "CogentModel/Props/C13Gen.lean"]
+LEAN_TARGETS = ["CogentModel.Props.C13", "CogentModel.Props.C13Gen"]
 DRIVER = "drv_c13"
 TRUSTED = [
     "hand-written models lean/CogentModel/Model/DataStore.lean (DataStoreDirectory over an abstract file system, "
@@ -51,6 +51,8 @@ NCP = "not_completed/"
 
 
 GEN_FILE = LEAN / "CogentModel" / "Gen" / "C13Names.lean"
+GEN_FMT = LEAN / "CogentModel" / "Gen" / "C13Fmt.lean"
+GEN_SQL = LEAN / "CogentModel" / "Gen" / "C13Sql.lean"
 
 
 def generate(ctx):
@@ -62,14 +64,30 @@ def generate(ctx):
     sys.path.insert(0, str(VERIF))
     from translator import c13_names2lean as tr
 
+    out = []
     try:
         lean, info, problems = tr.translate(SRC / "app" / "data_store.py")
     except (tr.TranslationError, SyntaxError) as e:
-        return [f"c13_names2lean: {e}"]
+        lean, info, problems = None, {}, [str(e)]
     ctx.notes.append(f"c13_names2lean: {json.dumps(info)[:700]}")
     if lean is not None and tr.write_if_changed(GEN_FILE, lean):
         ctx.notes.append("Gen/C13Names.lean was rewritten (the naming code differs from the last generated text)")
-    return [f"c13_names2lean: {p}" for p in problems]
+    out += [f"c13_names2lean: {p}" for p in problems]
+    # wave 2: get_format_suffixes (util/io.py) and the pure-Python logic of DataStoreSqlite
+    from translator import c13_fmt2lean as trf
+    from translator import c13_sql2lean as trs
+
+    lean, info, problems = trf.translate(SRC / "util" / "io.py", SRC / "util" / "misc.py")
+    ctx.notes.append(f"c13_fmt2lean: {json.dumps(info)[:300]}")
+    if lean is not None and tr.write_if_changed(GEN_FMT, lean):
+        ctx.notes.append("Gen/C13Fmt.lean was rewritten (get_format_suffixes differs from the last generated text)")
+    out += [f"c13_fmt2lean: {p}" for p in problems]
+    lean, info, problems = trs.translate(SRC / "app" / "sqlite_data_store.py", SRC / "app" / "data_store.py")
+    ctx.notes.append(f"c13_sql2lean: {json.dumps(info)[:500]}")
+    if lean is not None and tr.write_if_changed(GEN_SQL, lean):
+        ctx.notes.append("Gen/C13Sql.lean was rewritten (the sqlite store's naming / guard code differs from the last generated text)")
+    out += [f"c13_sql2lean: {p}" for p in problems]
+    return out
 
 
 def md5hex(s):
@@ -583,6 +601,49 @@ def _names_stream(ctx, out):
     bump(out, "names_cases", len(reqs))
 
 
+def _fmt_stream(ctx, out):
+    """the TRANSLATED get_format_suffixes (Gen/C13Fmt.lean) and the pathlib / regex / str primitives it is written with (conventions
+    F1-F4 of translator/c13_fmt2lean.py), and the translated sqlite identifier rewriting (convention S1), against the real functions:
+    every string of <= 4 tokens incl. upper case, leading dots (where the real function raises IndexError) and directory parts"""
+    from pathlib import Path
+
+    from cogent3.util.io import get_format_suffixes
+    from cogent3.util.misc import _wout_period
+
+    words = ["a", "B", ".", "fa", "GZ", "gz", "zip", "bz2", "json", "_", "/", "results", "logs"]
+    cases = set()
+    for n in range(1, 5):
+        for tup in itertools.product(words, repeat=n):
+            s = "".join(tup)
+            if s in (".", "..") or s.endswith("/") or s.startswith("/") or "//" in s or "/./" in s or "/../" in s or s.startswith("./") or s.startswith("../") or s.endswith("/.") or s.endswith("/.."):
+                continue
+            cases.add(s)
+    cases = sorted(cases)
+    rng = ctx.subrng("fmt")
+    if not ctx.thorough:
+        cases = rng.sample(cases, 1500) + ["..a", "...a.b", "a.FA.GZ", "a.fa.gz", "x/..b", "results/a", "resultsa", "logs/b.log", "a.b.c.zip"]
+    got = ctx.driver.batch([("fmt", dict(uid=c)) for c in cases])
+    for c, g in zip(cases, got):
+        out["evaluations"] += 1
+        try:
+            fs = list(get_format_suffixes(c))
+        except IndexError:
+            fs = "IndexError"
+        p = Path(c)
+        want = dict(
+            fs=fs, suffix=p.suffix, suffixes=list(p.suffixes), lower=c.lower(), nodot=_wout_period.sub("", c),
+            sqlids=[Path(c).name if c.startswith("results") else c] * 2 + [Path(c).name if c.startswith("logs") else c],
+        )
+        if g != want:
+            diff = sorted(k for k in want if g.get(k) != want[k])
+            add_failure(out, "corr", f"translated get_format_suffixes / its primitives differ from the real functions ({diff})", dict(uid=c), want, g, confirmed=False)
+        elif fs == "IndexError" or (fs[0] is not None and fs[1] is not None) or c != c.lower():
+            out["nontrivial"].add(("fmt", c))
+        bump(out, "fmt_result", "IndexError" if fs == "IndexError" else f"sfx={'y' if fs[0] else 'n'},cmp={'y' if fs[1] else 'n'}")
+    bump(out, "stream", "fmt")
+    bump(out, "fmt_cases", len(cases))
+
+
 # --------------------------------------------------------------------------
 # correspondence
 # --------------------------------------------------------------------------
@@ -600,6 +661,7 @@ def correspondence(ctx):
     )
     cfg = detect_cfg(ctx)
     _names_stream(ctx, out)
+    _fmt_stream(ctx, out)
     rng = ctx.subrng("corr")
     n_hist = ctx.budget(200, 4000)
     for kind in ("dir", "sql"):
